@@ -221,7 +221,7 @@ var subPkgs = []string{"web", "api", "controller", "rest", "user", "order", "adm
 var svcPkgs = []string{"service", "domain", "client", "config", "support", "web", "api", "model"}
 var handlerVerbs = []string{"list", "get", "create", "update", "delete", "find", "search", "save", "remove", "export", "count", "show", "patch", "upload"}
 var helperNames = []string{"toDto", "validate", "currentUser", "buildResponse", "log", "init", "handleError", "mapAll", "ensureExists", "page", "setService", "configure"}
-var segs = []string{"users", "orders", "books", "api", "v1", "v2", "items", "admin", "search", "export", "{id}", "{name}", "{orderId}", "active", "me", "batch", "by-name", "line_items", "v1.1", "2fa"}
+var segs = []string{"users", "orders", "books", "api", "v1", "v2", "items", "admin", "search", "export", "{id}", "{name}", "{orderId}", "active", "me", "batch", "by-name", "line_items", "v1.1", "2fa", "{id:[0-9]+}", "**", "*.json"}
 var baseSegs = []string{"api", "v1", "v2", "users", "orders", "books", "admin", "internal", "rest", "accounts", "shop-api", "public_api"}
 var simpleTypes = []string{"String", "Long", "Integer", "int", "long", "boolean", "UUID", "Pageable", "Principal", "HttpServletRequest", "Model", "List<String>", "Map<String, String>", "String[]", "MultipartFile", "Optional<String>"}
 var returnTypes = []string{"String", "void", "ResponseEntity<%s>", "List<%s>", "%s", "Map<String, Object>", "ResponseEntity<Void>", "ModelAndView", "Page<%s>", "long"}
